@@ -456,6 +456,12 @@ class Frame:
         elif isinstance(s, ast.AugAssign):
             cur = self.expr(_as_load(s.target))
             rhs = self.expr(s.value)
+            if isinstance(s.target, ast.Subscript):
+                # `a[index] op= e` stores into `a` itself, whatever the index is (a mask or an index array selects cells of `a`;
+                # the copy that `a[mask]` would be as an *expression* is never made)
+                base = self.expr(_as_load(s.target.value))
+                if isinstance(base, Arr):
+                    cur = base
             if isinstance(cur, Arr):
                 # in-place on the array the target denotes
                 self.I.stores_seen += 1
@@ -880,6 +886,18 @@ class Frame:
                     return ClassV(m)
                 if isinstance(m, tuple):
                     return Opaque("class attr")
+            if attr == "__dict__":
+                return DictV(None, base.obj_owners)  # the object's attribute table: a store into it is a store on the object
+            if base.cls is not None and not isinstance(base.cls, _SuperProxy):
+                # a field the abstract object does not model: if some method of the class binds it to a slice object, indexing
+                # with it is basic slicing (a view), not a scalar read
+                for k in base.cls.mro():
+                    for m in k.methods.values():
+                        for n in ast.walk(m.node):
+                            if isinstance(n, ast.Assign) and any(isinstance(t, ast.Attribute) and t.attr == attr and isinstance(t.value, ast.Name)
+                                                                 and t.value.id == "self" for t in n.targets) \
+                                    and isinstance(n.value, ast.Call) and isinstance(n.value.func, ast.Name) and n.value.func.id == "slice":
+                                return Opaque(f"field {attr} (slice object)", "slice")
             return Opaque(f"field {attr}")
         if isinstance(base, Arr):
             if attr in ("T", "real", "flat", "values"):
@@ -1083,6 +1101,12 @@ class Frame:
                 return Arr(EMPTY) if isinstance(el, Arr) else Opaque("sum")
             if short == "getattr" and len(args) >= 2:
                 return Opaque("getattr")
+            if short == "setattr" and len(args) >= 3:
+                # setattr(obj, name, value) is an attribute store on obj
+                self.I.stores_seen += 1
+                if isinstance(a0, Obj):
+                    self.I.effect("mutate", a0.obj_owners, self.d, e)
+                return Opaque("None")
             if short == "super":
                 c = self.repo.enclosing_class(self.d)
                 selfv = self.env.get(self.d.params[0]) if self.d.params else None
